@@ -744,6 +744,14 @@ func (t *c15Trace) monitors(fl []string, class string, pre c15Snap, preLocks []l
 		}
 	}
 	for _, s := range sk.GetStreams(f.Ctx) {
+		// paging_independent rests on the epoch pointer bisecting each stream's records by gauge id: a stored
+		// record list that is not strictly ascending lets a saved pointer resolve to the wrong position
+		for i := 1; i < len(s.DistributeTo.Records); i++ {
+			if s.DistributeTo.Records[i-1].GaugeId >= s.DistributeTo.Records[i].GaugeId {
+				r.Violate("C15/paging_independent/stream-records-not-strictly-ascending",
+					fmt.Sprintf("stream %d stores records with gauge id %d before %d", s.Id, s.DistributeTo.Records[i-1].GaugeId, s.DistributeTo.Records[i].GaugeId), t.replay()...)
+			}
+		}
 		if !s.DistributedCoins.IsAllLTE(s.Coins) {
 			r.Hit("f8-stream-overdistributed")
 			r.Violate("C15/stream_bounded/distributed-exceeds-coins/"+t.cause(), fmt.Sprintf("stream %d distributed %s > coins %s", s.Id, s.DistributedCoins, s.Coins), t.replay()...)
@@ -1255,7 +1263,51 @@ func (x *c15Gen) recs(perturb bool) string {
 	}
 	if perturb {
 		x.t.r.Hit("perturb/records")
-		switch g.Intn(6) {
+		switch g.Intn(11) {
+		case 6: // one zero weight among valid, sorted records
+			i := g.Intn(len(parts))
+			parts[i] = strings.Split(parts[i], ":")[0] + ":0"
+			x.t.r.Hit("perturb/records/zero-weight-sorted")
+		case 7: // a zero-weight record out of order (at the end, naming a gauge id below the others; or moved to the front)
+			if len(parts) > 1 {
+				if g.Bool() {
+					first := strings.Split(parts[0], ":")[0]
+					parts = append(parts[1:], first+":0")
+				} else {
+					last := strings.Split(parts[len(parts)-1], ":")[0]
+					parts = append([]string{last + ":0"}, parts[:len(parts)-1]...)
+				}
+			} else {
+				parts = append(parts, "0:0")
+			}
+			x.t.r.Hit("perturb/records/zero-weight-unsorted")
+		case 8: // a zero-weight duplicate of a listed gauge
+			parts = append(parts, strings.Split(parts[g.Intn(len(parts))], ":")[0]+":0")
+			x.t.r.Hit("perturb/records/zero-weight-duplicate")
+		case 9: // a zero-weight record for an unknown gauge (sorted position: the end)
+			parts = append(parts, fmt.Sprintf("%d:0", x.nGauges+1+g.Intn(3)))
+			x.t.r.Hit("perturb/records/zero-weight-unknown-gauge")
+		case 10: // a zero-weight record for a non-perpetual gauge, inserted in sorted position
+			if len(x.nonperp) > 0 {
+				id := x.nonperp[g.Intn(len(x.nonperp))]
+				out := []string{}
+				done := false
+				for _, p := range parts {
+					pid, _ := strconv.Atoi(strings.Split(p, ":")[0])
+					if !done && pid > id {
+						out = append(out, fmt.Sprintf("%d:0", id))
+						done = true
+					}
+					if pid != id {
+						out = append(out, p)
+					}
+				}
+				if !done {
+					out = append(out, fmt.Sprintf("%d:0", id))
+				}
+				parts = out
+			}
+			x.t.r.Hit("perturb/records/zero-weight-non-perpetual")
 		case 0: // unknown gauge
 			parts = append(parts, fmt.Sprintf("%d:1", x.nGauges+1+g.Intn(3)))
 		case 1: // non-perpetual gauge
